@@ -3,19 +3,27 @@ structural condition (the finding keeps its construct and detail, the message sa
 import importlib
 
 
+_CACHE = {}
+
+
 def import_findings(ck, src_pid, dst_rule, rules, why, detail_prefixes=None, construct_contains=None):
     """run the rules of property `src_pid` in a scratch Check and copy the findings (and obligations) of `rules`
     whose detail starts with one of `detail_prefixes` / whose construct contains one of `construct_contains`"""
     if getattr(ck, 'no_shares', False):
         return 0            # we are ourselves being run as the source of a share: own rules only, no cascade
     mod = importlib.import_module('sa.rules.' + src_pid.lower())
-    sub = type(ck)(ck.pid, ck.tier)
-    sub.no_shares = True
-    try:
-        mod.run(sub, 'quick')
-    except Exception as e:   # noqa
-        ck.broken.append('shared rules of %s crashed: %r' % (src_pid, e))
-        return 0
+    # the source property's own rules are evaluated once per process, however many of its rules are imported (same tree, same result)
+    key = (src_pid, ck.pid, ck.tier)
+    sub = _CACHE.get(key)
+    if sub is None:
+        sub = type(ck)(ck.pid, ck.tier)
+        sub.no_shares = True
+        try:
+            mod.run(sub, 'quick')
+        except Exception as e:   # noqa
+            ck.broken.append('shared rules of %s crashed: %r' % (src_pid, e))
+            return 0
+        _CACHE[key] = sub
 
     def keep(rule, construct, text):
         if rule not in rules:
